@@ -8,7 +8,7 @@ from pyvc.cbase import Contract, LoopSpec, Ret, Raises
 from pyvc.spec import *
 from .common import *
 from .transports import log_file, LOGS, logs_post
-from .expect import pend_of, sbuf_of, W_ok
+from .expect import pend_of, sbuf_of, W_ok, K_cover
 
 PW = 'pexpect._async_w_await.PatternWaiter'
 EXPECT_ASYNC = 'pexpect._async_w_await.expect_async'
@@ -108,8 +108,12 @@ class DataReceived(Contract):
 
     def requires(self, v):
         ex = v.a.self.expecter
-        return [('inv', INV_buf(ex.spawn)), ('W-domain', W_ok(ex.searchwindowsize)),
-                ('L-domain', True if ex.lookback is None else ex.lookback >= 0)]
+        out = [('inv', INV_buf(ex.spawn)), ('W-domain', W_ok(ex.searchwindowsize)),
+               ('L-domain', True if ex.lookback is None else ex.lookback >= 0)]
+        if v.g['fut'] == 'pending':
+            # protocol invariant while a call is outstanding (established by expect_async before it waits)
+            out.append(('C03:buffer-covers', K_cover(ex.spawn, ex.searchwindowsize, ex.lookback)))
+        return out
 
     def exits(self, v):
         return ()
@@ -136,7 +140,8 @@ class DataReceived(Contract):
         else:
             fut = g['fut']
             if fut == 'pending':
-                out += [('C14:no-match-yet-means-the-text-is-pending', eq(pend_of(new), cat(pend_of(old), text))),
+                out += [('C03:buffer-still-covers', K_cover(new, v.old.self.expecter.searchwindowsize, v.old.self.expecter.lookback)),
+                        ('C14:no-match-yet-means-the-text-is-pending', eq(pend_of(new), cat(pend_of(old), text))),
                         ('C14:still-reading', Not(g['paused']) if is_sym(g['paused']) else not g['paused'])]
             elif fut[0] == 'result':
                 # exactly what the blocking loop does with this chunk: new_data(text) found a match
@@ -236,7 +241,13 @@ class WaitFor(Contract):
         return outs
 
     def requires(self, v):
-        return [('C14:pending-text-is-searched-before-waiting', v.g.get('searched_pending', False) is True)]
+        out = [('C14:pending-text-is-searched-before-waiting', v.g.get('searched_pending', False) is True)]
+        if v.g.get('expecter_obj') is not None:
+            # C03: while the call waits, the search buffer still covers what new_data will need (protocol invariant
+            # assumed by data_received, established here)
+            ex = v.view(v.g['expecter_obj'])
+            out.append(('C03:buffer-covers-while-waiting', K_cover(ex.spawn, ex.searchwindowsize, ex.lookback)))
+        return out
 
     def effects(self, v):
         v.g['waits'] = v.g.get('waits', 0) + 1
